@@ -29,10 +29,18 @@ type c03Step struct {
 	R *c03Read `json:"r,omitempty"`
 }
 
+// c03Split places a region border of the TiKV mock at the internal key of Keys[K] for revision first+Off (Off < 0: the
+// key's index record), i.e. possibly between two versions of one key
+type c03Split struct {
+	K   int `json:"key"`
+	Off int `json:"off"`
+}
+
 type c03Case struct {
 	Engine string
 	Keys   []string
 	Steps  []c03Step
+	Splits []c03Split `json:",omitempty"` // engine tikv-regions only
 }
 
 func genKeyPool(t *rapid.T, min, max int) []string {
@@ -92,7 +100,34 @@ func genC03(t *rapid.T) interface{} {
 		r.Limit = rapid.IntRange(0, len(c.Keys)+1).Draw(t, "limit")
 		c.Steps = append(c.Steps, c03Step{R: r})
 	}
+	if c.Engine == engTiKVRegions {
+		ns := rapid.IntRange(1, 4).Draw(t, "nsplits")
+		for i := 0; i < ns; i++ {
+			c.Splits = append(c.Splits, c03Split{K: DrawIntn(t, len(c.Keys), "splitKey"), Off: rapid.IntRange(-2, n).Draw(t, "splitOff")})
+		}
+	}
 	return c
+}
+
+const engTiKVRegions = "tikv-regions"
+
+func (c *c03Case) splitKeys() [][]byte {
+	var out [][]byte
+	for _, sp := range c.Splits {
+		var rev uint64
+		if sp.Off >= 0 {
+			rev = InitRev + 1 + uint64(sp.Off)
+		}
+		out = append(out, shimCoder.EncodeObjectKey([]byte(FullKey(c.Keys[sp.K%len(c.Keys)])), rev))
+	}
+	sort.Slice(out, func(i, j int) bool { return bytes.Compare(out[i], out[j]) < 0 })
+	var ded [][]byte
+	for i, k := range out {
+		if i == 0 || !bytes.Equal(k, out[i-1]) {
+			ded = append(ded, k)
+		}
+	}
+	return ded
 }
 
 type c03Prior struct {
@@ -110,7 +145,11 @@ func runC03(ci interface{}, st *CaseStats) error {
 	for i, k := range c.Keys {
 		keys[i] = FullKey(k)
 	}
-	env, err := NewSeqEnv(SeqOpts{Engine: c.Engine, Keys: keys, Backend: BackendOpts{Etcd: true}})
+	engine, splits := c.Engine, [][]byte(nil)
+	if engine == engTiKVRegions {
+		engine, splits = EngTiKV, c.splitKeys()
+	}
+	env, err := NewSeqEnv(SeqOpts{Engine: engine, Keys: keys, SplitKeys: splits, Backend: BackendOpts{Etcd: true}})
 	if err != nil {
 		return Inconclusivef("engine: %v", err)
 	}
@@ -222,6 +261,12 @@ func runC03(ci interface{}, st *CaseStats) error {
 	if failed > 0 {
 		st.Label("has-failed-write")
 	}
+	for _, sp := range c.Splits {
+		if vs := env.M.Keys[keys[sp.K%len(keys)]]; sp.Off >= 0 && len(vs) >= 2 && vs[0].Rev < InitRev+1+uint64(sp.Off) && InitRev+1+uint64(sp.Off) <= vs[len(vs)-1].Rev {
+			st.Label("region-border-inside-version-run")
+			break
+		}
+	}
 	if deletes > 0 && multi && oldReads > 0 && multiKeyRanges > 0 {
 		st.Nontrivial()
 	}
@@ -251,7 +296,7 @@ func probeC03Marker() (bool, string) {
 
 var specC03 = &Spec{
 	ID:   "C03",
-	Rule: "case = key pool of 3..7 prefix-related names + 4..40 steps (writes with every expected-revision class, so many fail; point / range / limited-range / count reads at every revision between first and current and at 0; re-reads of earlier requests), executed sequentially against a real backend and the reference MVCC model with exact comparison; non-trivial = history has a successful delete and a multi-version key, some read at a revision older than the newest write, and some range read covering >= 2 keys; distinct = SHA-1 of the serialised case",
+	Rule: "case = key pool of 3..7 prefix-related names + 4..40 steps (writes with every expected-revision class, so many fail; point / range / limited-range / count reads at every revision between first and current and at 0; re-reads of earlier requests), executed sequentially against a real backend and the reference MVCC model with exact comparison; engine tikv-regions splits the TiKV mock cluster into regions at 1..4 internal keys of pool keys (index record or any revision of the history, so borders fall between versions of one key and unlimited range reads take the partitioned scan path); non-trivial = history has a successful delete and a multi-version key, some read at a revision older than the newest write, and some range read covering >= 2 keys; distinct = SHA-1 of the serialised case",
 	Gen:  genC03,
 	New:  func() interface{} { return &c03Case{} },
 	Run:  runC03,
@@ -262,7 +307,7 @@ var specC03 = &Spec{
 		"values are non-empty and never equal to the reserved deletion marker (recorded finding, excluded by construction)",
 		"reads below the compaction floor are not generated here (C08)",
 	},
-	Engines: []string{EngMem, EngBadger, EngTiKV},
+	Engines: []string{EngMem, EngBadger, EngTiKV, engTiKVRegions},
 }
 
 func TestC03(t *testing.T) { RunProperty(t, specC03) }
